@@ -21,4 +21,6 @@ cd /verif && VERIF_REPO=$WT ./vcheck $PID ${TIER:+--tier $TIER} 2>&1 | tail -${T
 rc=${PIPESTATUS[0]}
 git -C /repo worktree remove --force $WT
 rm -rf /verif/.work/${PID}_$(python3 -c "import hashlib,sys;print(hashlib.sha1(sys.argv[1].encode()).hexdigest()[:6])" $WT) /verif/.work/altwork_$(python3 -c "import hashlib,sys;print(hashlib.sha1(sys.argv[1].encode()).hexdigest()[:10])" $WT)
+H=$(python3 -c "import hashlib,sys;print(hashlib.sha1(sys.argv[1].encode()).hexdigest()[:10])" $WT)
+rm -f /verif/.build/*_${H:0:6}.test /verif/.build/*_${H:0:6}_*.test /verif/.build/overlay_*_${H}.json
 echo "== mutant $NAME on $PID: rc=$rc"
